@@ -43,6 +43,15 @@ func c15Shapes(g *c14Gen) []c14Req {
 		{"POST", c14Api + "/solutions", c14Csv, noAsIs},
 		{"GET", c14Api + "/solutions/1-of-8", "", ""},
 		{"GET", c14Api + "/solutions/As-Is", "", ""},
+		// Actions cells that pass the hex pattern but do not decode for the scenario (wrong word count, word beyond 64 bits,
+		// empty words): POST must refuse them, and a GET of the label must never serve the as-is state under it
+		{"POST", c14Api + "/solutions", c14Csv, strings.Replace(sum, "1122.881, 0, 40,", "1122.881, 0, 1:2,", 1)},
+		{"GET", c14Api + "/solutions/1-of-8", "", ""},
+		{"POST", c14Api + "/solutions", c14Csv, strings.Replace(sum, "1122.881, 0, 40,", "1122.881, 0, 10000000000000000,", 1)},
+		{"GET", c14Api + "/solutions/1-of-8", "", ""},
+		{"POST", c14Api + "/solutions", c14Csv, strings.Replace(sum, "1122.881, 0, 40,", "1122.881, 0, :,", 1)},
+		{"POST", c14Api + "/solutions", c14Csv, strings.Replace(sum, "1122.881, 0, 40,", "1122.881, 0, ,", 1)},
+		{"GET", c14Api + "/solutions/1-of-8", "", ""},
 		{"POST", c14Api + "/scenario", c14Toml, c15ReadFile("testdata/InvalidModelTestScenario.toml")},
 		{"POST", c14Api + "/scenario", c14Toml, strings.Replace(v, `Type = "CatchmentModel"`, `Type = "NullModel"`, 1)},
 		{"POST", c14Api + "/scenario", c14Toml, strings.Replace(v, "testdata/ValidModel.csv", "testdata/ValidGullies.csv", 1)},
